@@ -54,6 +54,9 @@ def run_case(case, ctx):
                 spikeless=['none', 'first', 'middle', 'last'][int(rng.integers(0, 4))],
                 features=['none', 'dense', 'sparse', 'sparse'][int(rng.integers(0, 4))],
                 probes=bool(rng.integers(0, 2)), rate=[1., 100., 30000.][int(rng.integers(0, 3))], ncdat_extra=0)
+    if rng.random() < 0.03:
+        # id products that overflow 16 bits: many templates, uint16 ids, curated clusters
+        opts.update(nt=300, ns=900, dtype_ids='uint16', clusters='curated', features='none')
     if case.get('large'):
         opts.update(ns=[100001, 120000, 150000][case['seed'][1] % 3], n_samples=2000000, features=['sparse', 'dense'][case['seed'][1] % 2],
                     clusters='same', nt=4, nc=6)
